@@ -30,19 +30,19 @@ Section Flat.
     pok prev -> wfopt n -> wf_value v = true -> ready s E ->
     exists s', next_elem fam f a prev (print_opt d n v ++ rest) s = (ret37 v, rest, s') /\
       pelems (pth s') = E ++ [n] /\ pcurr s' = 11 /\ valid s' = len v /\
-      (v <> [] -> post_read s' (len v) = Some v).
+      (v <> [] -> post_read s' (len v) = Some v) /\ pbin (pth s') = false.
   Hypothesis H_open : forall d n rest s prev,
     pok prev -> wfsec n -> ready s [] ->
     exists s', next_elem fam f a prev (head d n ++ rest) s = (PSection, rest, s') /\
-      pelems (pth s') = [n] /\ pbuf (pth s') = true /\ pcurr s' = Z.lor PSection PName.
+      pelems (pth s') = [n] /\ bufok (pth s') /\ pcurr s' = Z.lor PSection PName.
   Hypothesis H_close : forall d n rest s x prev,
     pok prev -> ready s [x] ->
     exists s', next_elem fam f a prev (head d n ++ rest) s = (PSectEnd, head2 d n ++ rest, s') /\
-      pelems (pth s') = [x] /\ pcurr s' = PSectEnd.
+      pelems (pth s') = [x] /\ pcurr s' = PSectEnd /\ pbin (pth s') = false.
   Hypothesis H_reopen : forall d n rest s,
     wfsec n -> ready s [] ->
     exists s', next_elem fam f a PSectEnd (head2 d n ++ rest) s = (PSection, rest, s') /\
-      pelems (pth s') = [n] /\ pbuf (pth s') = true /\ pcurr s' = Z.lor PSection PName.
+      pelems (pth s') = [n] /\ bufok (pth s') /\ pcurr s' = Z.lor PSection PName.
   Hypothesis H_eof : forall final s prev, pok prev -> exists s', next_elem fam f a prev (lead final) s = (0, [], s').
   Hypothesis H_seclen : forall n, wfsec n -> len n <= IDENT_MAX.
   Hypothesis H_optlen : forall n, wfopt n -> len n <= IDENT_MAX.
@@ -57,7 +57,7 @@ Section Flat.
       ready s' E /\ okb 11 b' /\ lb 11 b' = add_kid (abs_item (Opt n v)) (lb prev b).
   Proof.
     intros PV WN WV RD OK.
-    destruct (H_opt d n v k s E prev PV WN WV RD) as (s1 & E1 & Q1 & Q2 & Q3 & Q4).
+    destruct (H_opt d n v k s E prev PV WN WV RD) as (s1 & E1 & Q1 & Q2 & Q3 & Q4 & QB).
     unfold ret37 in *.
     assert (R37 : (match v with [] => 3 | _ => 7 end) = 3 /\ v = [] \/ (match v with [] => 3 | _ => 7 end) = 7 /\ v <> []).
     { destruct v; [left|right]; split; auto; discriminate. }
@@ -82,7 +82,8 @@ Section Flat.
     { intros fuel. unfold floop. cbn [config_loop]. rewrite E1, RP, HD, VO, Q1, NA, SE, PD.
       replace (dd <? 0) with false by (symmetry; apply Z.ltb_ge; lia). now rewrite Q2. }
     split.
-    { apply ready_next; auto; [rewrite PE1, Q1; apply removelast_app1|eapply path_del_keep; eassumption]. }
+    { apply ready_next; auto; [rewrite PE1, Q1; apply removelast_app1|eapply path_del_keep; eassumption|
+                                rewrite (pbin_del _ _ _ PD); exact QB]. }
     destruct (lb_nonempty _ _ OK) as (p & rest & LB). rewrite LB.
     split.
     - split; [discriminate|]. split; [discriminate|]. intros _. eauto.
@@ -166,7 +167,7 @@ Section Flat.
       lb prev' b' = mkFrame n None (rev (map abs_item (map strip ks))) :: close_frame sec0 p :: rest.
   Proof.
     intros PV WN WK RD OK LB. rewrite pr_sec, <- app_assoc.
-    destruct (H_close d n (concat (map pr ks) ++ k) s x prev PV RD) as (s1 & E1 & Q1 & Q2).
+    destruct (H_close d n (concat (map pr ks) ++ k) s x prev PV RD) as (s1 & E1 & Q1 & Q2 & QB).
     assert (NA1 : node_append b (mkEv PSectEnd prev [x] (pfirst (pth s1)) None) = Some (inl (lb prev b))).
     { now apply node_append_end. }
     destruct (path_del (pth s1)) as [dd p1] eqn:PD.
@@ -174,7 +175,8 @@ Section Flat.
     { rewrite Q1 in X. discriminate. }
     set (s2 := mkPst (line s1) (calls s1) p1 0 0).
     assert (R2 : ready s2 []).
-    { subst s2. apply ready_next; auto; [now rewrite PE1, Q1|eapply path_del_keep; eassumption]. }
+    { subst s2. apply ready_next; auto; [now rewrite PE1, Q1|eapply path_del_keep; eassumption|
+                                          rewrite (pbin_del _ _ _ PD); exact QB]. }
     destruct (H_reopen d n (concat (map pr ks) ++ k) s2 WN R2) as (s3 & E3 & T1 & T2 & T3).
     assert (O2 : okb PSectEnd (lb prev b)).
     { rewrite LB. split; [discriminate|]. split; [discriminate|]. intros _. eauto. }
